@@ -13,8 +13,11 @@ package main
 // Uuid.uuid_of_bytes on the bytes NewV4 returned against their String() (masks are idempotent on them).
 
 import (
+	"bufio"
+	crand "crypto/rand"
 	"encoding/hex"
 	"fmt"
+	"io"
 	"regexp"
 	"strings"
 	"sync"
@@ -33,6 +36,7 @@ func init() {
 			c.Rep.Extra = map[string]interface{}{}
 		}
 		c18String(c, c.N(1200, 12000))
+		c18ShortReads(c, c.N(400, 4000))
 		c18Draws(c, c.N(20000, 1000000))
 	}
 }
@@ -251,6 +255,79 @@ func c18Draws(c *Ctx, n int) {
 	for g := 0; g < G && g < 3; g++ {
 		if len(out[g]) > 0 {
 			c.Sample(map[string]interface{}{"kind": out[g][0].kind, "id": out[g][0].id})
+		}
+	}
+}
+
+
+// ---------- a random source that returns SHORT READS ----------
+// io.Reader allows Read to return fewer bytes than asked for with a nil error; crypto/rand.Reader may legitimately be
+// replaced by such a source (a buffered or hardware-backed reader).  Identifiers must still consist of 122 fresh bits.
+type c18OneByte struct{ inner io.Reader }
+
+func (o c18OneByte) Read(p []byte) (int, error) {
+	if len(p) == 0 {
+		return 0, nil
+	}
+	return o.inner.Read(p[:1])
+}
+
+type c18Chunky struct {
+	inner io.Reader
+	n     int
+}
+
+func (o *c18Chunky) Read(p []byte) (int, error) {
+	o.n++
+	k := 1 + o.n%7
+	if k > len(p) {
+		k = len(p)
+	}
+	return o.inner.Read(p[:k])
+}
+
+func c18ShortReads(c *Ctx, n int) {
+	saved := crand.Reader
+	defer func() { crand.Reader = saved }()
+	for _, src := range []struct {
+		name string
+		r    io.Reader
+	}{{"one byte per Read", c18OneByte{saved}}, {"1..7 bytes per Read", &c18Chunky{inner: saved}}, {"bufio(64) with interleaved 12-byte draws", bufio.NewReaderSize(saved, 64)}} {
+		crand.Reader = src.r
+		seen := map[string]bool{}
+		var distinct [16]map[byte]bool
+		for i := range distinct {
+			distinct[i] = map[byte]bool{}
+		}
+		dup := ""
+		for k := 0; k < n; k++ {
+			if src.name[0] == 'b' {
+				var nonce [12]byte
+				io.ReadFull(crand.Reader, nonce[:]) // another consumer of the same source between two identifiers
+			}
+			u := uuid.NewV4()
+			s := u.String()
+			if seen[s] && dup == "" {
+				dup = s
+			}
+			seen[s] = true
+			for i, b := range u {
+				distinct[i][b] = true
+			}
+			c.Eval(true, "short-read:"+s)
+		}
+		c.Count("short-read-source:" + src.name)
+		replay := map[string]interface{}{"random_source": "crypto/rand.Reader replaced by a reader returning short reads: " + src.name, "draws": n}
+		if dup != "" {
+			replay["identifier"] = dup
+			c.Violate("spec", "short-read:repeat", "identifier repeated when the random source returns short reads: "+dup, replay)
+		}
+		for i := range distinct {
+			if len(distinct[i]) < 4 {
+				replay["byte_position"] = i
+				c.Violate("spec", "short-read:constant-bytes", fmt.Sprintf("byte %d of the identifiers takes only %d distinct value(s) over %d draws when the random source returns short reads: the read was not completed", i, len(distinct[i]), n), replay)
+				break
+			}
 		}
 	}
 }
